@@ -430,3 +430,12 @@ func isIfaceSlice(t types.Type) bool {
 	_, isI := sl.Elem().Underlying().(*types.Interface)
 	return isI && !isErrorType(sl.Elem()) && !strings.Contains(sl.Elem().String(), "fundraising")
 }
+
+func init() {
+	// Escrow address derivation (types.SellingReserveAddress etc. -> address.Module hash): assumed injective in
+	// (role, auction id) and disjoint from user addresses (assumption A4); modelled by sellEsc/payEsc/vestEsc.
+	for fn, esc := range map[string]string{"SellingReserveAddress": "sellEsc", "PayingReserveAddress": "payEsc", "VestingReserveAddress": "vestEsc"} {
+		esc := esc
+		pure(modTypes+"."+fn, func(x *X, s *State, a []Val) Val { return Sc{T: sApp(esc, tm(a[0])), Sort: "Addr"} })
+	}
+}
